@@ -25,8 +25,9 @@ def job(sid, slot):
     meta_path = os.path.join(VERIF, "seeded", sid, "meta.json")
     meta = json.load(open(meta_path))
     prop = meta.get("breaks_property") or sid.split("-")[0][:3]
-    repo = "/tmp/det_repo_%d" % slot
-    ver = "/tmp/det_verif_%d" % slot
+    # per process and slot: two detect_all runs at the same time must not share scratch worktrees
+    repo = "/tmp/det_repo_%d_%d" % (os.getpid(), slot)
+    ver = "/tmp/det_verif_%d_%d" % (os.getpid(), slot)
     sh("git -C /repo worktree remove --force %s; git -C /repo worktree add --detach %s HEAD" % (repo, repo))
     rc, o = sh("git apply %s" % os.path.join(VERIF, "seeded", sid, "patch.diff"), cwd=repo)
     if rc != 0:
